@@ -29,7 +29,7 @@ func main() {
 		return
 	}
 	ev.Main("C18", "exploration",
-		"one in-process perkeepd (serverinit.Load of a high-level config + InstallHandlers, real TCP listener) per configuration {memory,localdisk,diskpacked,blobpacked}x{memory,leveldb,kv,sqlite} and history; a history = every (request kind, parameter class) pair once plus seeded random picks up to the tier's request count, over <=45 blobs (0 B .. 64 KiB, one 1 MiB, a real chunked file; sha224/sha1/sha256 refs), issued through pkg/client (Upload, ReceiveBlob, StatBlobs, Fetch, EnumerateBlobs[Opts]) and raw net/http (PUT, multipart 1..40 parts, stat GET/POST with 1..1001 refs, GET/HEAD with single Range forms, enumerate with limit/after/maxwaitsec, continuation chains), each answer compared with a reference map, then a full audit; distinct = (configuration, hash of the request log); a history counts only if it issued every mandatory class",
+		"one in-process perkeepd (serverinit.Load of a high-level config + InstallHandlers, real TCP listener) per configuration {memory,localdisk,diskpacked,blobpacked}x{memory,leveldb,kv,sqlite} and history; a history = every (request kind, parameter class) pair once plus seeded random picks up to the tier's request count, over <=45 blobs (0 B .. 64 KiB, one 1 MiB, a real chunked file; sha224/sha1/sha256 refs), issued through pkg/client (Upload, ReceiveBlob, StatBlobs, Fetch, EnumerateBlobs[Opts]) and raw net/http (PUT, multipart 1..40 parts, stat GET/POST with 1..1001 refs, GET/HEAD with single Range forms, enumerate with limit/after/maxwaitsec, continuation chains), each answer compared with a reference map, then a full audit; plus one boundary-size history per configuration: blobs of MaxBlobSize-1, MaxBlobSize and MaxBlobSize+1 bytes (16 MiB, streamed) through PUT with Content-Length, chunked PUT, multipart with small parts before and after the big one, client.Upload and client.ReceiveBlob, legal sizes acknowledged/stat-able/fetched byte for byte/enumerated once, the over-limit size refused and invisible afterwards; distinct = (configuration, hash of the request log); a history counts only if it issued every mandatory class",
 		run)
 }
 
@@ -52,10 +52,11 @@ func tierConfigs(r *ev.Run) []config {
 }
 
 type job struct {
-	cfg  config
-	hn   int
-	id   string
-	nreq int
+	cfg      config
+	hn       int
+	id       string
+	nreq     int
+	boundary bool // the boundary-size history of the configuration (boundary.go)
 }
 
 func run(r *ev.Run) {
@@ -74,17 +75,26 @@ func run(r *ev.Run) {
 	cfgs := tierConfigs(r)
 	nh := r.Pick(6, 24)
 	nreq := r.Pick(150, 300)
+	r.Assume("blob-upload.md: 'A single blob can be at most 16 MB' = constants.MaxBlobSize (16 MiB), the limit blobserver.Receive applies to direct storage access: a blob of exactly that size is legal on every upload path, one byte more is refused (any non-2xx answer, a closed connection, or an error of the client library) and must leave no trace; of a multipart request with an over-limit part only the parts before it are decided")
 	var jobs []job
+	// the boundary-size histories first: they are the longest
+	for _, c := range cfgs {
+		id := fmt.Sprintf("%s#boundary;", c)
+		if r.Only(id) {
+			jobs = append(jobs, job{cfg: c, id: id, boundary: true})
+		}
+	}
 	for _, c := range cfgs {
 		for hn := 0; hn < nh; hn++ {
 			id := fmt.Sprintf("%s#h%d;", c, hn)
 			if !r.Only(id) {
 				continue
 			}
-			jobs = append(jobs, job{c, hn, id, nreq})
+			jobs = append(jobs, job{cfg: c, hn: hn, id: id, nreq: nreq})
 		}
 	}
 	sem := make(chan struct{}, 14)
+	bigSem := make(chan struct{}, 3)
 	var wg sync.WaitGroup
 	for _, j := range jobs {
 		wg.Add(1)
@@ -92,6 +102,11 @@ func run(r *ev.Run) {
 		go func(j job) {
 			defer wg.Done()
 			defer func() { <-sem }()
+			if j.boundary {
+				// each holds ~10 blobs of 16 MiB in its store (in RAM for memory storage)
+				bigSem <- struct{}{}
+				defer func() { <-bigSem }()
+			}
 			runJob(r, root, j)
 		}(j)
 	}
@@ -106,16 +121,28 @@ func run(r *ev.Run) {
 		r.Require("complete_configs", names...)
 		r.Require("storage_kinds", storages...)
 		r.Require("index_kinds", indexes...)
-		r.Require("events", "continuation-paging", "file-uploaded", "zip-packed")
+		r.Require("events", "continuation-paging", "file-uploaded", "zip-packed",
+			"part-after-max-part-received", "part-after-max-1-part-received")
+		r.Require("boundary_configs", names...)
+		r.Require("boundary_cases", boundaryCases()...)
+		var forms []string
+		for _, c := range boundaryCases() {
+			if p, s, _ := strings.Cut(c, "/"); p != "Upload" && p != "ReceiveBlob" {
+				forms = append(forms, p+"."+s)
+			}
+		}
+		r.Require("upload_forms", forms...)
 	}
-	r.Require("endpoints", "upload", "stat", "get", "enumerate")
-	r.Require("client_kinds", "pkg/client", "raw")
-	r.Require("client_funcs", "Upload", "ReceiveBlob", "StatBlobs", "Fetch", "EnumerateBlobs", "EnumerateBlobsOpts", "SimpleEnumerateBlobs")
-	r.Require("upload_forms", "PUT", "multipart.1", "multipart.2", "multipart.5", "multipart.17", "multipart.40")
-	r.Require("range_classes", "first-last", "single-byte", "open-ended", "suffix", "suffix-larger", "clamp-end", "whole", "unsatisfiable", "HEAD")
-	r.Require("stat_batch", "GET.1", "GET.37", "POST.1", "POST.37", "POST.999", "POST.1000", "POST.1001")
-	r.Require("enum_limit", "absent", "1", "2", "100", "over-max")
-	r.Require("maxwaitsec", "absent", "0", "1", "client-1")
+	if !strings.Contains(os.Getenv("VERIF_ONLY"), "#boundary;") { // (a replay of one boundary history issues its own classes only)
+		r.Require("endpoints", "upload", "stat", "get", "enumerate")
+		r.Require("client_kinds", "pkg/client", "raw")
+		r.Require("client_funcs", "Upload", "ReceiveBlob", "StatBlobs", "Fetch", "EnumerateBlobs", "EnumerateBlobsOpts", "SimpleEnumerateBlobs")
+		r.Require("upload_forms", "PUT", "multipart.1", "multipart.2", "multipart.5", "multipart.17", "multipart.40")
+		r.Require("range_classes", "first-last", "single-byte", "open-ended", "suffix", "suffix-larger", "clamp-end", "whole", "unsatisfiable", "HEAD")
+		r.Require("stat_batch", "GET.1", "GET.37", "POST.1", "POST.37", "POST.999", "POST.1000", "POST.1001")
+		r.Require("enum_limit", "absent", "1", "2", "100", "over-max")
+		r.Require("maxwaitsec", "absent", "0", "1", "client-1")
+	}
 	r.Extra("configurations", names)
 	r.Extra("histories_per_configuration", nh)
 	r.Extra("planned_requests_per_history", nreq)
@@ -133,6 +160,7 @@ func runJob(r *ev.Run, root string, j job) {
 		"C18_CFG=" + j.cfg.String(),
 		fmt.Sprintf("C18_HIST=%d", j.hn),
 		fmt.Sprintf("C18_NREQ=%d", j.nreq),
+		"C18_KIND=" + map[bool]string{false: "history", true: "boundary"}[j.boundary],
 		"C18_DIR=" + dir,
 		"C18_CASE=" + j.id,
 		fmt.Sprintf("VERIF_SEED=%d", r.Seed),
@@ -142,12 +170,13 @@ func runJob(r *ev.Run, root string, j job) {
 	start := time.Now()
 	out, code, timedOut := ev.Child(env, 8*time.Minute)
 	evs, rest := parseEvents(out)
-	done, aborted := false, false
+	done, aborted, violated := false, false, false
 	distinctKey := ""
 	classes := map[string]int{}
 	for _, e := range evs {
 		switch e.T {
 		case "viol":
+			violated = true
 			r.Violation(e.Sig, e.What, e.Value)
 		case "note":
 			n := e.N
@@ -169,6 +198,8 @@ func runJob(r *ev.Run, root string, j job) {
 			if j.hn == 0 {
 				r.Sample(e.Value)
 			}
+		case "peak":
+			r.Extra("boundary_child_peak_rss_mib."+j.cfg.Storage, e.N)
 		case "inconcl":
 			r.Inconclusive(e.What)
 		case "aborted":
@@ -221,8 +252,28 @@ func runJob(r *ev.Run, root string, j job) {
 		}
 		seen[c] = true
 	}
-	r.Count("histories", 1)
 	r.Count("requests", total)
+	if j.boundary {
+		r.Count("boundary_histories", 1)
+		var missing []string
+		for _, c := range boundaryClasses() {
+			if !seen[c] {
+				missing = append(missing, c)
+			}
+		}
+		if len(missing) == 0 {
+			r.Note("boundary_configs", j.cfg.String())
+			if distinctKey != "" {
+				r.Distinct(distinctKey)
+			}
+		} else if !aborted && !violated {
+			// a refused legal blob (reported) makes the reads of it impossible: not a coverage gap then
+			r.Inconclusive(fmt.Sprintf("%s: boundary history did not issue %v", j.id, missing))
+		}
+		r.Extra("slowest_boundary_history_s", maxb(time.Since(start).Seconds()))
+		return
+	}
+	r.Count("histories", 1)
 	r.Note("configs", j.cfg.String())
 	r.Note("storage_kinds", j.cfg.Storage)
 	r.Note("index_kinds", j.cfg.Index)
@@ -241,6 +292,17 @@ var (
 	slowMu  sync.Mutex
 	slowest float64
 )
+
+var slowestB float64
+
+func maxb(v float64) float64 {
+	slowMu.Lock()
+	defer slowMu.Unlock()
+	if v > slowestB {
+		slowestB = v
+	}
+	return float64(int(slowestB*10)) / 10
+}
 
 func maxf(_ *ev.Run, v float64) float64 {
 	slowMu.Lock()
